@@ -273,3 +273,50 @@ SET_DATA = REG.add(Contract(
     use=USE, abstract_exprs=True, may_raise=["Any"], verify_with=sd_verify, prune=True,
     properties=("C14", "C16")))
 SET_DATA.note = "numpy expressions are opaque; the DataFrame branch and np.asarray above the block are outside the contract"
+
+
+# ---- case names=[...]: the caller's names are bound to the curves in order, missing ones are blank
+def sd_names_inv1(c):
+    nm, nm0 = c.v("names"), c.a["names"]
+    return sd_kept_names(c) + [("renumbered-flag", c.g("$renumbered")),
+                               ("names-only-extended-by-blanks", z3.And(nm.n >= nm0.n,
+                                forall(q, z3.Implies(z3.And(0 <= q, q < nm0.n), z3.Select(nm.cols[0], q) == z3.Select(nm0.cols[0], q))),
+                                forall(q, z3.Implies(z3.And(nm0.n <= q, q < nm.n), z3.Select(nm.cols[0], q) == z3.StringVal("")))))]
+
+
+def sd_kept_names(c):
+    # as sd_kept, without "originals kept" (they are being replaced by the names)
+    return [x for x in sd_kept(c) if x[0] != "originals-of-existing-curves-kept"]
+
+
+def sd_names_bound(c, upto, names):
+    v = cv(c)
+    return [("curve-q-carries-name-q (blank beyond the caller's list)", forall(q, z3.Implies(z3.And(0 <= q, q < upto), z3.Select(v.orig, v.item(q)) == z3.If(
+        q < c.a["names"].n, z3.Select(c.a["names"].cols[0], q), z3.StringVal("")))))]
+
+
+def sd_names_inv2(c):
+    nm, nm0 = c.v("names"), c.a["names"]
+    return sd_kept_names(c) + sd_names_bound(c, c.i, nm) + [
+        ("names-long-enough", nm.n >= cv(c).n),
+        ("names-only-extended-by-blanks", z3.And(nm.n >= nm0.n,
+         forall(q, z3.Implies(z3.And(0 <= q, q < nm0.n), z3.Select(nm.cols[0], q) == z3.Select(nm0.cols[0], q))),
+         forall(q, z3.Implies(z3.And(nm0.n <= q, q < nm.n), z3.Select(nm.cols[0], q) == z3.StringVal(""))))),
+        ("distinct-curve-objects", LI.distinct_objects(cv(c)))]
+
+
+SET_DATA_NAMES = REG.add(Contract(
+    "las.LASFile.set_data#after-asarray", case="names=list",
+    params={"self": LAS, "data": OBJ, "names": LIST(STR), "truncate": BOOL},
+    requires=lambda c: las_shape(c) + [("some-names-given", c.a["names"].n > 0), ("distinct-curve-objects", LI.distinct_objects(cv(c)))],
+    ensures=lambda c: sd_kept_names(c) + [("session-names-renumbered-after-the-last-rename (assign_duplicate_suffixes reached on every path)",
+                                           c.g("$renumbered"))],
+    modifies=dict(NEW_FRAME, data=None, original_mnemonic=None),
+    loops={0: lambda c: sd_kept(c) + [("renumbered-flag", c.g("$renumbered")), ("distinct-curve-objects", LI.distinct_objects(cv(c)))],
+           1: lambda c: sd_names_inv1(c) + [("originals-of-existing-curves-kept", sd_kept(c)[-2][1]), ("distinct-curve-objects", LI.distinct_objects(cv(c)))],
+           2: sd_names_inv2},
+    loop_ghost={0: ["$renumbered"], 1: ["$renumbered"], 2: ["$renumbered"]},
+    ghost_init=sd_init,
+    hooks={"self.curves.assign_duplicate_suffixes()": sd_hook_ads, "curve.mnemonic = names[i]": sd_hook_rename},
+    use=USE, abstract_exprs=True, may_raise=["Any"], verify_with=sd_verify, prune=True,
+    properties=("C14",)))
